@@ -82,8 +82,15 @@ def _free_names(obj) -> set:
 
 
 def _degenerate(trees) -> bool:
-    """sympy simplified a symbol away at construction (a - a, a**0, 0*a ...)."""
-    return any(_free_names(M.to_sympy(t)) != M.names_of(t) for t in trees)
+    """sympy simplified a symbol away at construction (a - a, a**0, 0*a ...), or will do so as soon as the expression is
+    rebuilt: b**0.0 survives construction, but -1*(b**0.0) evaluates to -1 (sympy, not Cirq)."""
+    for t in trees:
+        o = M.to_sympy(t)
+        if _free_names(o) != M.names_of(t):
+            return True
+        if isinstance(o, sympy.Basic) and any(isinstance(n, sympy.Pow) and n.args[1] == 0 for n in sympy.preorder_traversal(o)):
+            return True
+    return False
 
 
 def _expr_trees(*layers):
@@ -118,7 +125,7 @@ def _numeric_names(vals, recursive=True) -> set:
 
 
 def _pow_partial(objs, numeric: set, submap=None, rounds=1) -> bool:
-    """FC10a trigger: some Pow reaches np.float_power with a sympy object as operand, i.e. after the substitution
+    """(label; the trigger of repaired defect FC10a) some Pow reaches the numpy power call with a sympy operand, i.e. after the substitution
     its base is free of symbols while (a) its exponent still has one, or (b) the base only lost its symbols by
     collapsing (0*a, a**0), which leaves a sympy number.  ``submap``: Symbol -> number/expression applied
     ``rounds`` times (the predicate may use sympy; it is not an oracle)."""
@@ -330,7 +337,7 @@ def oracle_expr_compose(r):
 
     # unrelated resolver: equal object back
     same = cirq.resolve_parameters(expr, {ZZ: 0.5})
-    if cirq.parameter_names(same) != names and not _pow_partial([expr], set()):
+    if cirq.parameter_names(same) != names and not labels["degenerate"]:
         raise Violation(f"resolving an unrelated symbol changed the free symbols: {expr!r} -> {same!r}"[:300])
 
     # stage 1
@@ -401,7 +408,7 @@ def _gate_case(draw, wraps=None, families=None, partial=False):
     wrap = draw(st.sampled_from(wraps or WRAPS))
     if fam == "RandomGate" and wrap not in ("gate", "op", "tag", "ptag"):
         wrap = "op"
-    if ar == 0 and wrap not in ("gate", "op", "tag", "ptag", "cop", "cop_pr", "cop_with_params", "moment"):
+    if ar == 0 and wrap not in ("gate", "op", "tag", "ptag", "cop", "cop_pr", "cop_with_params", "cop_rep", "moment"):
         wrap = "op"
     if fam == "RandomGate":
         vals = {n: ["f", draw(G.probs(1.0))] for n in CG.SYMS}
@@ -698,9 +705,10 @@ def oracle_gate_names(r):
         raise Violation(f"{what}: is_parameterized true although no slot holds a sympy object")
     labels = _gate_labels(r, trees)
     labels["n_names"] = len(exp)
+    labels["pow_partial"] = _gate_pow_partial(r)
     # unrelated resolver: equal object back, names unchanged
     same = cirq.resolve_parameters(obj, {ZZ: 0.5})
-    if set(cirq.parameter_names(same)) != exp:
+    if set(cirq.parameter_names(same)) != exp and not _degenerate(trees):
         raise Violation(f"{what}: resolving an unrelated symbol changed parameter_names to {sorted(cirq.parameter_names(same))}")
     # partial numeric resolution
     sub = [n for n in r.get("sub", []) if M.value_to_python(r["vals"][n]) is not None]
@@ -813,14 +821,15 @@ def _perturb(t, j):
 def _sweep_labels(t, want):
     return {"nontrivial": M.sweep_depth(t) >= 2 and len(want) >= 2, "depth": M.sweep_depth(t), "n_points": min(len(want), 9),
             "empty": len(want) == 0, "single": len(want) == 1, "root": t[0], "has_ziplongest": M.sweep_has(t, {"ziplongest"}),
-            "has_concat": M.sweep_has(t, {"concat"}), "has_ops": M.sweep_has(t, {"mul", "add"}), "n_keys": len(M.sweep_keys(t))}
+            "has_concat": M.sweep_has(t, {"concat"}), "has_ops": M.sweep_has(t, {"mul", "add"}), "n_keys": len(M.sweep_keys(t)),
+            "ziplongest_operand_of_plus": _zl_under_add(t)}
 
 
 _NODES = ("zip", "ziplongest", "product", "concat", "mul", "add")
 
 
 def _zl_under_add(t):
-    """FC10e: `ZipLongest + sweep` (Sweep.__add__) unpacks the ZipLongest as if it were a Zip."""
+    """(label; trigger of repaired defect FC10e) `ZipLongest + sweep` used to unpack the ZipLongest as if it were a Zip."""
     if t[0] == "add" and any(c[0] == "ziplongest" for c in t[1]):
         return True
     return t[0] in _NODES and any(_zl_under_add(c) for c in t[1])
@@ -883,6 +892,8 @@ def oracle_sweeps(r):
     extra = {ZZ: 1.5}
     _check_points("to_resolvers([sweep, None, dict, [sweep]])", cirq.to_resolvers([sw, None, extra, [sw]]),
                   want + [[]] + [[[ZZ, 1.5]]] + want)
+    _check_points("to_resolvers(dict with a sequence value)", cirq.to_resolvers({ZZ: [1.0, 2.0], "yy": 3}),
+                  [[[ZZ, 1.0], ["yy", 3]], [[ZZ, 2.0], ["yy", 3]]])
     tsw = cirq.to_sweeps(sw)
     if not (isinstance(tsw, list) and len(tsw) == 1 and tsw[0] == sw):
         raise Violation(f"to_sweeps(sweep) is {tsw!r}")
@@ -1280,7 +1291,7 @@ def oracle_circuit_resolve(r):
         raise Violation(f"parameter_names(circuit)={sorted(cirq.parameter_names(c_sym))}, the slots hold {sorted(exp)}")
     # unrelated symbol: equal circuit back
     same = cirq.resolve_parameters(c_sym, {ZZ: 0.25})
-    if set(cirq.parameter_names(same)) != exp or len(same) != len(c_sym):
+    if (set(cirq.parameter_names(same)) != exp and not _degenerate(CG.circuit_trees(r["c"]))) or len(same) != len(c_sym):
         raise Violation("resolving an unrelated symbol changed the circuit's parameters or moments")
     if not any(o.get("slots") for o in r["c"]["ops"] if "m" not in o) and not (same == c_sym):
         raise Violation("resolving a circuit without any sympy object changed it")
@@ -1389,44 +1400,12 @@ def _rc(r):
     return r["c"] if isinstance(r.get("c"), dict) and "ops" in r["c"] else None
 
 
-def _circuit_pfsim(sub, r):
-    rc = _rc(r)
-    if rc is None or sub not in ("circuit_resolve", "sim_sweep", "flatten", "commute"):
-        return False
-    hits = [o for o in rc["ops"] if "m" not in o and o["g"][0] == "PhasedFSim" and o.get("slots")]
-    return bool(hits) if sub == "circuit_resolve" else any(o.get("cop") for o in hits)
-
-
-def _circuit_pow(sub, r):
-    rc = _rc(r)
-    if rc is None or sub not in ("circuit_resolve",):
-        return False
-    objs = [M.to_sympy(t) for t in CG.circuit_trees(rc)]
-    if _pow_partial(objs, set()):  # the unrelated-symbol step
-        return True
-    sub_ = [n for n in r.get("sub", []) if M.value_to_python(r["vals"].get(n, ["expr"])) is not None]
-    return _pow_partial(objs, set(sub_), {sympy.Symbol(n): M.value_to_python(r["vals"][n]) for n in sub_}, 1)
-
-
 def _circuit_collapse(sub, r):
     rc = _rc(r)
     if rc is None or sub != "circuit_resolve":
         return False
     zero = any(M.value_to_python(r["vals"].get(n, ["expr"])) == 0 for n in r.get("sub", []))
     return zero and any(o.get("cop") and o.get("slots") for o in rc["ops"] if "m" not in o)
-
-
-def _cop_qubits(r):
-    g = r["case"]["g"]
-    if g[0] == "DensePauli":  # .on() gives a PauliString, which drops identity factors
-        return sum(1 for p in g[1]["ps"] if p != "I")
-    return G.arity(g)
-
-
-def _is_pfsim_names(sub, r):
-    if sub not in ("gate_unitary", "gate_names", "cop_protocol") or r["case"]["g"][0] != "PhasedFSim" or not r["case"]["slots"]:
-        return False
-    return sub == "gate_names" or r["wrap"] in COP
 
 
 KNOWN_FEATURES = {
@@ -1442,8 +1421,6 @@ KNOWN_FEATURES = {
 #   FC10c 1-qubit CircuitOperation unitary ignored param_resolver (a82c794), FC10e Sweep.__add__ unpacked ZipLongest (c8b2a6d),
 #   FC10f flatten skipped CircuitOperation (184e225), FC10g eject_z on symbolic iSWAP/FSim (e6ad139),
 #   PauliInteractionGate JSON exponent (d16af11, found with C11).
-
-_UNITARY_WRAPS = [w for w in WRAPS]
 
 SUBCHECKS = [
     SubCheck("expr_value", _expr_value_case(), oracle_expr_value, quick=2400, thorough=80000, shards_quick=4, shards_thorough=16,
